@@ -1,0 +1,26 @@
+//go:build verif
+
+package memory
+
+import "sync/atomic"
+
+// VerifHookFn receives the name of an instrumentation point. It may block,
+// sleep, record events or terminate the process.
+type VerifHookFn func(point string)
+
+var verifHook atomic.Pointer[VerifHookFn]
+
+// VerifSetHook installs (or removes, with nil) the instrumentation callback.
+func VerifSetHook(fn VerifHookFn) {
+	if fn == nil {
+		verifHook.Store(nil)
+		return
+	}
+	verifHook.Store(&fn)
+}
+
+func verifPoint(point string) {
+	if fn := verifHook.Load(); fn != nil {
+		(*fn)(point)
+	}
+}
